@@ -152,6 +152,7 @@ Definition parse_single_range (s : bytes) : outcome rng :=
       | Some (hi_, over_hi) =>
         if hi_ <? lo_ then Err EINVAL
         else if MAX_RANGE <=? hi_ - lo_ then Err ERANGE
+        else if hi_ =? ULONG - 1 then Err EINVAL (* saturated or literal ULONG_MAX: reserved *)
         else Ok (mkrng lo_ hi_ (length a))
       end
     end
